@@ -10,7 +10,7 @@ EXPLANATION = ("Static MIR rules on ArchiveWriter: (R09.1) in every function rea
                "proved dead by a recorded invariant are tabled in tables/writer_dead_refusals.json; (R09.2) every effect of the five methods is dominated by a "
                "state test taking the OpenedFiles edge; (R09.3) the count returned by io::copy(take(src, length), dest) in ArchiveFileBlock::dump is "
                "compared with length and the unequal edge returns Err; (R09.4) StreamWriter::write and every call of mlar into the ArchiveWriter propagate the writer's "
-               "error (variant-tracked paths); R09.2 also requires every Ok result of the entry points behind the state test and, for per-file methods, the id-membership tests. A caller-side test discharges a callee refusal (D2) only when both measure the same quantity (len() vs chars().count() differ); HashMap::entry is a lookup, consuming the Entry is the effect. (R09.5) on every path of start_file / append_file_content / end_file to a block write, current_id was compared equal to the block's file or is stored (so the next block of another file opens a run and stays readable); (R09.6) = R20.7: no adaptor discards an error of the destination, so calls that all returned Ok did write the archive. Equality of the final archive with the one built without the refused calls is runtime and not decided.")
+               "error (variant-tracked paths); R09.2 also requires every Ok result of the entry points behind the state test and, for per-file methods, the id-membership tests. A caller-side test discharges a callee refusal (D2) only when both measure the same quantity (len() vs chars().count() differ); HashMap::entry is a lookup, consuming the Entry is the effect. (R09.5) on every path of start_file / append_file_content / end_file to a block write, current_id was compared equal to the block's file or is stored (so the next block of another file opens a run and stays readable); (R09.7) the largest name length the block parser accepts (comparisons with FILENAME_MAX_SIZE guarding FilenameTooLong, normalised) is not below the largest the writer side accepts; (R09.6) = R20.7: no adaptor discards an error of the destination, so calls that all returned Ok did write the archive. Equality of the final archive with the one built without the refused calls is runtime and not decided.")
 TRUSTED = ['rustc MIR', 'std collections: get/contains/get_mut do not modify the map']
 ASSUMPTIONS = ['I/O errors from the destination are not refusals (they may follow effects)']
 
@@ -449,6 +449,7 @@ def run(prog, rep, tier):
 
     # ---------------- R09.5 run bookkeeping: current_id names the file of the block written last
     r09_5(prog, rep)
+    r09_7(prog, rep)
 
     # ---------------- R09.4 refusals surface
     sw = one_body(prog, rep, 'R09.4', 'mla', adt='helpers::StreamWriter', name='write', trait='std::io::Write')
@@ -599,3 +600,59 @@ def _discharge_d2(prog, S, body, ref, effs):
             if c0 & cs and same_measure:
                 return '%s already refused before any effect on the same limit %s (%s)' % (v, sorted(c0 & cs), body.loc(rb0, ri0))
     return None
+
+
+
+def r09_7(prog, rep, RULE='R09.7'):
+    """"every sequence whose calls all succeeded ends in a readable archive": whatever name length the writer side accepts (start_file, the block writer),
+    the block parser accepts too. Every comparison with FILENAME_MAX_SIZE that guards a FilenameTooLong refusal is normalised to the largest accepted
+    length; the smallest bound of the reader side (ArchiveFileBlock::from) must not be below the largest bound of the writer side."""
+    from ..inline import inlined_body
+    mla = prog.crates['mla']
+    K = mla.const_int('FILENAME_MAX_SIZE')
+    sites = []      # (role, body, bb, accepted maximum)
+    for body0 in mla.bodies:
+        if body0.kind == 'Closure':
+            continue
+        role = 'reader' if norm(body0.defpath) == 'ArchiveFileBlock::from' else ('writer' if norm(body0.defpath) in ('ArchiveFileBlock::dump', 'ArchiveWriter::start_file') else None)
+        if role is None:
+            continue
+        body = inlined_body(prog, body0, depth=1)      # the test may sit in a shared private helper
+        refusals = [bl.idx for bl in body.blocks if not bl.cleanup for st in bl.stmts
+                    if st.kind == 'assign' and st.rv.r == 'aggregate' and st.rv.j.get('variant') == 'FilenameTooLong']
+        for bl in body.blocks:
+            si = switch_info(prog, body, bl.idx)
+            if not si or si['kind'] != 'bool':
+                continue
+            e = expr_of(body, si['cond'])
+            if e[0] != 'binop' or e[1] not in ('Gt', 'Ge', 'Lt', 'Le'):
+                continue
+            cs = [i for i, x in enumerate((e[2], e[3])) if x[0] == 'const' and ((x[2] or {}).get('def') or '').endswith('FILENAME_MAX_SIZE')]
+            if len(cs) != 1:
+                continue
+            op = e[1] if cs[0] == 1 else {'Gt': 'Lt', 'Ge': 'Le', 'Lt': 'Gt', 'Le': 'Ge'}[e[1]]      # x op K
+            t_ref = any(body.edge_dominates((bl.idx, si['true']), r) for r in refusals)
+            f_ref = any(body.edge_dominates((bl.idx, si['false']), r) for r in refusals)
+            if t_ref == f_ref or K is None:
+                continue
+            # the set of x that is NOT refused is {x <= m}
+            if t_ref:
+                m = {'Gt': K, 'Ge': K - 1}.get(op)
+            else:
+                m = {'Le': K, 'Lt': K - 1}.get(op)
+            if m is None:
+                continue
+            sites.append((role, body0, bl.idx, m))
+            rep.fn(body0)
+    rd = [x for x in sites if x[0] == 'reader']
+    wr = [x for x in sites if x[0] == 'writer']
+    rep.floor(RULE + '.reader', len(rd), 1, 'name-length tests of the block parser')
+    rep.floor(RULE + '.writer', len(wr), 2, 'name-length tests of the writer side')
+    if rd and wr:
+        lo = min(x[3] for x in rd)
+        hi = max(x[3] for x in wr)
+        worst = [x for x in rd if x[3] == lo][0]
+        rep.ob(RULE, lo >= hi, RULE + '|mla::ArchiveFileBlock::from|name-length-accepted-by-writer-is-accepted-by-reader',
+               'the block parser accepts names up to %d bytes, the writer side up to %d' % (lo, hi) if lo >= hi else
+               'the block parser refuses names longer than %d bytes while the writer accepts up to %d: an archive whose calls all succeeded cannot be read back' % (lo, hi),
+               worst[1].loc(worst[2]))
